@@ -12,6 +12,12 @@
     if (nonempty_count(C.n, UA) >= 2) hx::distinct(inst() + "|" + op + "|" + state_word(C, A, UA) + "|" + arg);
     else hx::count("trivial_receiver");
   }
+  // triage class for disjunct-wise operators: the base-level operator turned an empty disjunct into a non-empty one
+  static std::string empty_to_nonempty(int n, const Un& UA, const Un& E, int n2 = -1) {
+    if (n2 < 0) n2 = n;
+    if (UA.size() == E.size()) for (size_t i = 0; i < UA.size(); ++i) if (M::empty(n, UA[i]) && !M::empty(n2, E[i])) return "base-level-maps-empty-to-nonempty";
+    return "";
+  }
   static void drop_twin(Case& C, int i) { delete C.twin[i]; C.twin[i] = 0; }
 
   // A.f(B) with the alias differential (when ai == bi) ; R = shadow of the result
@@ -46,7 +52,7 @@
     op.ps(A);
     Un R = shadow(A);
     if (A.size() != before) { violation(key(op.name, "size_increased"), "disjunct-wise operator changed the number of disjuncts from " + std::to_string(before) + " to " + std::to_string(A.size())); return; }
-    if (check_op(op.name, n, E, R) == 0) return;
+    if (check_op(op.name, n, E, R, empty_to_nonempty(n, UA, E)) == 0) return;
     if (!check_post(op.name, A, R)) return;
     PSBin f = [&op](PS& x, const PS&) { op.ps(x); };
     lockstep(C, ai, -1, op.name, f, R);
@@ -150,7 +156,7 @@
     tr(pre + ".simplify_using_context_assign(#" + std::to_string(bi) + ")"); note(C, S.op, A, UA, state_word(C, B, UB) + (ai == bi ? "|alias" : "")); S.changed.insert(ai);
     if (risky(S.op)) {
       hx::count("crash_probes");
-      int sig = crash_probe([&]() { PS X(A); std::unique_ptr<PS> Y(deep_copy(B)); X.simplify_using_context_assign(*Y); });
+      int sig = crash_probe([&]() { PS X(A); std::unique_ptr<PS> Y(deep_copy(B)); X.simplify_using_context_assign(*Y); if (ai == bi) { PS Z(A); Z.simplify_using_context_assign(Z); } });
       if (sig) { violation(key(S.op, "base_crash", "signal-" + std::to_string(sig)), "the operation applied to copies of the operands killed a forked probe process; A " + text(A) + " context " + text(B)); return; }
     }
     size_t before = A.size(); std::vector<D> evA = elems(A), evB = elems(B);
@@ -159,12 +165,9 @@
     hx::count("op_checks"); hx::count("simplify_checks");
     if (R.size() * UB.size() > 40) { hx::inconclusive("simplify_big"); return; }
     Un M1 = meets(UA, UB), M2 = meets(R, UB);
-    // triage: a receiver disjunct that contains a whole non-empty context disjunct (base-level simplification then enlarges it to the universe)
-    bool contains_ctx = false;
-    for (size_t i = 0; i < UA.size() && !contains_ctx; ++i) for (size_t j = 0; j < UB.size() && !contains_ctx; ++j) if (!M::empty(n, UB[j])) { Un a(1, UB[j]), b(1, UA[i]); if (M::included(n, a, b, 0) == 1) contains_ctx = true; }
     // triage: does the base-level simplification of one disjunct in one context disjunct already lose/gain part of the meet,
     // or return false on a non-empty meet?
-    bool base_fail = false; std::string base_wit;
+    bool base_fail = false; std::string base_wit, base_sub;
     // (both with the plain context disjuncts and with the progressively restricted ones the powerset algorithm uses)
     for (int chain = 0; chain < 2 && !base_fail; ++chain) for (size_t i = 0; i < evA.size() && !base_fail; ++i) {
       D enlarged(n);
@@ -172,11 +175,12 @@
         D ctx(evB[j]); if (chain) ctx.intersection_assign(enlarged);
         D z(evA[i]); bool br = z.simplify_using_context_assign(ctx);
         Sh sc = M::shadow(ctx, n); Un m1(1, M::meet(UA[i], sc)), m2(1, M::meet(M::shadow(z, n), sc)); Vec w;
-        if (M::included(n, m1, m2, &w) == 0 || M::included(n, m2, m1, &w) == 0 || (!br && !M::empty(n, m1[0]))) { base_fail = true; base_wit = "base level: " + text(evA[i]) + " simplified in context " + text(ctx) + " gives " + text(z) + " (returned " + (br ? "true" : "false") + "); "; }
+        if (!br && !M::empty(n, m1[0])) base_sub = "-returns-false-on-nonempty-meet";
+        if (M::included(n, m1, m2, &w) == 0 || M::included(n, m2, m1, &w) == 0 || (!br && !M::empty(n, m1[0]))) { base_fail = true; if (base_sub.empty()) base_sub = "-meet-changed"; base_wit = "base level: " + text(evA[i]) + " simplified in context " + text(ctx) + " gives " + text(z) + " (returned " + (br ? "true" : "false") + "); "; }
         enlarged.intersection_assign(z);
       }
     }
-    std::string cls = std::string(ai == bi ? "alias" : "") + (base_fail ? std::string(ai == bi ? "-" : "") + "base-level" + (contains_ctx ? "-disjunct-contains-context" : "") : "");
+    std::string cls = std::string(ai == bi ? "alias" : "") + (base_fail ? std::string(ai == bi ? "-" : "") + "base-level" + base_sub : "");
     if (!base_wit.empty()) tr(" [" + base_wit + "]");
     if (check_same(key(S.op, "union_changed", cls), key(S.op, "union_changed", cls), n, M1, M2, "meet with the context before", "meet with the context after") == 0) return;
     checked(); if (A.size() > before) { violation(key(S.op, "size_increased", cls), "from " + std::to_string(before) + " to " + std::to_string(A.size()) + " disjuncts"); return; }
@@ -198,7 +202,15 @@
     Un R = shadow(A); hx::count("op_checks"); hx::count("reduction_checks");
     checked(); if (A.size() > before) { violation(key(S.op, "size_increased"), "from " + std::to_string(before) + " to " + std::to_string(A.size()) + " disjuncts"); return; }
     if (w < 2) {
-      if (check_same(key(S.op, "union_changed", "lost"), key(S.op, "union_changed", "gained"), n, UA, R, "union before", "union after") == 0) return;
+      std::string bl;
+      if (w == 1 && !same_syntax_union<M>(UA, R)) {   // triage: a base-level upper_bound_assign_if_exact that says `exact' for an inexact join
+        for (size_t i = 0; i < ev.size() && bl.empty(); ++i) for (size_t j = 0; j < ev.size() && bl.empty(); ++j) if (i != j) {
+          D z(ev[i]); if (!z.upper_bound_assign_if_exact(ev[j])) continue;
+          Un zz(1, M::shadow(z, n)), two; two.push_back(UA[i]); two.push_back(UA[j]); Vec wv;
+          if (M::included(n, zz, two, &wv) == 0) { bl = "-base-level-inexact-join-accepted"; tr(" [base level: " + text(ev[i]) + ".upper_bound_assign_if_exact(" + text(ev[j]) + ") returned true and gave " + text(z) + "]"); }
+        }
+      }
+      if (check_same(key(S.op, "union_changed", "lost" + bl), key(S.op, "union_changed", "gained" + bl), n, UA, R, "union before", "union after") == 0) return;
       // after a reduction no disjunct is empty and none is contained in another
       checked(); std::string why; bool red = true;
       for (size_t i = 0; i < R.size() && red; ++i) if (M::empty(n, R[i])) { red = false; why = "empty disjunct left"; }
@@ -391,7 +403,7 @@
     op.ps(T);
     checked(); if ((int) T.space_dimension() != n2) { violation(key(op.name, "wrong_dimension", T.size() == 0 ? "no-disjuncts" : ""), "space dimension " + std::to_string(T.space_dimension()) + " expected " + std::to_string(n2)); return; }
     Un R = shadow(T);
-    if (check_op(op.name, n2, E, R) == 0) return;
+    if (check_op(op.name, n2, E, R, empty_to_nonempty(n, UA, E, n2)) == 0) return;
     check_post(op.name, T, R);
   }
 
@@ -426,6 +438,7 @@
         else if (profile == "geom") { int X[13] = { 10, 6, 5, 10, 18, 10, 8, 22, 3, 4, 2, 1, 1 }; std::copy(X, X + 13, W); }
         int tot = 0; for (int i = 0; i < 13; ++i) tot += W[i];
         int r = rnd(0, tot - 1), kindi = 0; while (r >= W[kindi]) { r -= W[kindi]; ++kindi; }
+        if (C.pool[ai]->size() == 0 && kindi != 3 && kindi != 9 && coin(60)) { kindi = 3; hx::count("forced_add_disjunct"); }
         if (C.pool[ai]->size() > 6) { step_reduce(C, ai, U[ai], pre.str(), S, C.pool[ai]->size() > 12 ? 2 : (coin() ? 0 : 1)); if (C.pool[ai]->size() > 8 && !hx::st().case_tainted) { Step S2; Un UA2 = shadow(*C.pool[ai]); step_reduce(C, ai, UA2, pre.str(), S2, 2); } }
         else switch (kindi) {
         case 0: step_unary(C, ai, U[ai], pre.str(), S); break;
